@@ -439,7 +439,9 @@ def _build_sources(case, lib, fds):
     return fonts
 
 
-def _designspace(fonts, paths=None):
+def _designspace(fonts, paths=None, vfinfo=None):
+    """`vfinfo`: one dict of fontinfo overrides per <variable-font> element (lib key public.fontInfo, as written by
+    glyphsLib / fontmake for "variable font origin" exports): PostProcessor.apply_fontinfo -> InfoCompiler"""
     from fontTools.designspaceLib import AxisDescriptor, DesignSpaceDocument, SourceDescriptor
     ds = DesignSpaceDocument()
     ax = AxisDescriptor()
@@ -456,6 +458,11 @@ def _designspace(fonts, paths=None):
             s.path = paths[i]
             s.filename = os.path.basename(paths[i])
         ds.addSource(s)
+    if vfinfo:
+        from fontTools.designspaceLib import RangeAxisSubsetDescriptor, VariableFontDescriptor
+        for i, info in enumerate(vfinfo):
+            ds.addVariableFont(VariableFontDescriptor(name="C08TestVF%d" % i, axisSubsets=[RangeAxisSubsetDescriptor(name="Weight")],
+                                                      lib={"public.fontInfo": json.loads(json.dumps(info))} if info is not None else {}))
     return ds
 
 
@@ -494,7 +501,7 @@ def worker(case):
                 fonts = [_open(p, case.get("reopen") or case["lib"]) for p in paths]
             ds = None
             if len(fonts) > 1:
-                ds = _designspace(fonts, paths)
+                ds = _designspace(fonts, paths, case.get("vfinfo"))
                 if paths:
                     from fontTools.designspaceLib import DesignSpaceDocument
                     dpath = os.path.join(os.path.dirname(paths[0]), "t.designspace")
@@ -549,6 +556,10 @@ def worker(case):
                     res = [ufo2ft.compileTTF(f[0], **kw)]
                 elif kind == "otf":
                     res = [ufo2ft.compileOTF(f[0], **kw)]
+                elif kind == "vttf" and case.get("vfinfo"):     # every <variable-font> of the document, in document order
+                    res = list(ufo2ft.compileVariableTTFs(d, **kw).values())
+                elif kind == "vcff2" and case.get("vfinfo"):
+                    res = list(ufo2ft.compileVariableCFF2s(d, **kw).values())
                 elif kind == "vttf":
                     res = [ufo2ft.compileVariableTTF(d, **kw)]
                 elif kind == "vcff2":
